@@ -4210,6 +4210,12 @@ cache_lg_crcv:
           return coap_handle_response_get_block(context, session, sent, rcvd,
                                                 COAP_RECURSE_NO);
         }
+        /*
+         * The following blocks cannot be requested.  As for fail_resp, the
+         * application must not take this block for the body.
+         */
+        if (block.m)
+          rcvd->code = COAP_RESPONSE_CODE(408);
       }
       track_echo(session, rcvd);
     } else if (rcvd->code == COAP_RESPONSE_CODE(401)) {
